@@ -158,6 +158,13 @@ def blocks? (j : Json) (k : String) : Option (List (M Float × Nat × Nat)) := d
     let a := d.toArray
     some ((fun i jx => a.getD (i * c + jx) 0.0), r, c))
 
+def dt? (s : String) : Option DT :=
+  match s with
+  | "float32" => some .f32 | "float64" => some .f64 | "complex64" => some .c64 | "complex128" => some .c128 | _ => none
+
+def dtName : DT → String
+  | .f32 => "float32" | .f64 => "float64" | .c64 => "complex64" | .c128 => "complex128"
+
 def handler : Handler := fun op j =>
   match op with
   | "op1" => do
@@ -398,6 +405,20 @@ def handler : Handler := fun op j =>
         ("doc", jMat (kronAxis m m 1 (abelRowMatrix P m mc)) (n * m) (n * m)),
         ("ys", jYs (abelEval P n m nc mc) (n * m) (xsOf j))]))
     | _ => none
+  | "circinit" => do
+    let hs ← fNats? j "hshape"; let is ← fNats? j "shape"
+    let nd := fNat? j "ndims"
+    let hd ← fBool? j "h_is_dft"; let hc ← fBool? j "has_center"
+    let a ← (fStr? j "hdtype").bind dt?; let b ← (fStr? j "dtype").bind dt?
+    match circInit hs is nd hd hc a b with
+    | none => some (err "value")
+    | some (out, odt, real) => some (ok (jObj [("output_shape", jNs out), ("output_dtype", jS (dtName odt)), ("real", jB real)]))
+  | "convinit" => do
+    let hn ← fNat? j "hndim"; let n ← fNat? j "ndim"; let mode ← fStr? j "mode"
+    let a ← (fStr? j "hdtype").bind dt?; let b ← (fStr? j "dtype").bind dt?
+    match convInit hn n mode a b with
+    | none => some (err "value")
+    | some odt => some (ok (jS (dtName odt)))
   | "dftinit" => do
     let shape ← fNats? j "shape"
     let axes := fInts? j "axes"
